@@ -38,7 +38,8 @@ UNIT = dict(
             ("sub", "R14-drop-float-lets", r"let elapsed_ratio = elapsed_ratio\.clamp\(0\.0, 1\.0\);", "", 1),
             ("R14", "elapsed_ratio", ["elapsed", "self.bucket_duration"]),
             ("sub", "R14-drop-float-lets", r"let previous_weight = 1\.0 - elapsed_ratio;", "", 1),
-            ("sub", "R14-drop-float-lets", r"let weighted_count =\s*\(self\.previous_count as f64 \* previous_weight\) \+ self\.current_count as f64;", "", 1),
+            ("R14", "weighted_count", ["self.previous_count", "previous_weight", "self.current_count"]),
+            ("sub", "R14-drop-float-lets", r"let weighted_count =\s*vx_leaf_weighted_count\([^;]*\);", "", 1),
             ("sub", "R14-admit", r"weighted_count < self\.limit_for_period as f64", "vx_leaf_admit(self.previous_count, self.current_count, elapsed, self.bucket_duration, self.limit_for_period)", 1),
             ("sub", "R14-estimate", r"self\.estimate_wait_time\(elapsed_ratio\)", "vx_estimate_wait_time(self.previous_count, self.current_count, self.limit_for_period, self.bucket_duration, elapsed)", 1),
             ("inject", r"self\.current_count \+= 1;", "after", ADMIT),
